@@ -6,12 +6,12 @@ from pyvc.engine import Engine
 
 META = _pipeline.meta('C07')
 
-DEDUCTIVE = ['vsg.vhdlFile.extract.tokens.New.extract_tokens', 'vsg.vhdlFile.utils.count_carriage_returns', 'vsg.rules.token_case.token_case._fix_violation', 'vsg.rules.whitespace_between_tokens.Rule._fix_violation', 'vsg.rules.token_indent.token_indent._fix_violation']
+DEDUCTIVE = ['vsg.vhdlFile.extract.utils.get_indexes_of_token_list', 'vsg.vhdlFile.extract.get_tokens_matching.get_tokens_matching', 'vsg.vhdlFile.extract.get_tokens_at_beginning_of_line_matching.get_tokens_at_beginning_of_line_matching', 'vsg.vhdlFile.extract.get_sequence_of_tokens_matching.get_token_indexes', 'vsg.vhdlFile.extract.get_sequence_of_tokens_matching.get_sequence_of_tokens_matching', 'vsg.vhdlFile.extract.tokens.New.extract_tokens', 'vsg.vhdlFile.utils.count_carriage_returns', 'vsg.rules.token_case.token_case._fix_violation', 'vsg.rules.whitespace_between_tokens.Rule._fix_violation', 'vsg.rules.token_indent.token_indent._fix_violation']
 
 
 def run():
     c = Check("C07", "other")
     c.engine = Engine()
-    c.deductive(sorted(set(DEDUCTIVE + _pipeline.fix_bases(c.engine))))
+    c.deductive(sorted(set(DEDUCTIVE + _pipeline.fix_bases(c.engine))), _pipeline.fix_base_search(c.engine, c.seed))
     _pipeline.pipeline_part(c, "C07")
     return c.finish({"explanation": META["text"]})
